@@ -77,6 +77,8 @@ def run(ctx):
     ctx.samples.append({"fam": "sdt", "ops": programs[-310]["ops"][:5]})
     ctx.distinct = {json.dumps(p, sort_keys=True) for p in programs}
     vlib.run_and_judge(ctx, programs, "Trace_Sdt.cfg", "Trace_Sdt.tla", "c13", timeout=3600)
+    vlib.run_and_judge(ctx, programs[-330:], "Trace_Sdt.cfg", "Trace_Sdt.tla", "c13chk", timeout=3600, profile="checked")
+    ctx.extra["builds"] = ["release", "checked (overflow checks + debug assertions) for the seeded histories"]
     return vlib.finish(ctx, rule="programs = every leaf history of the bounded model MC_Sdt (all sequences of typed/slice appends, "
                        "typed/slice writes at critical offsets incl. Length field, checksum byte, last valid and first refused "
                        "position, sink pushes) + seeded random long histories + random constructor tuples; distinct = distinct "
